@@ -2,6 +2,10 @@
 NOTES = ("Contract-based deductive verification with CBMC code contracts on the real sources; see DESIGN.md. "
          "exit 0 = all obligations discharged, exit 1 = VIOLATION, exit 2 = undecided (tool limit / time-out / broken anchor).")
 NOT_CLAIMED = {
+ "C20": "attempted, not decided: harnesses for the real module.c exist (harness/h_module.c: whole run load -> post-init -> unload over a symbolic dependency matrix, and per-phase "
+        "variants for the post-init walk and the unload rounds) but CBMC 6.11's symbolic execution does not get through them within an hour even for 2-3 stub modules (the "
+        "value-set based pointer simplifier dominates; see DESIGN 10.2/10.6). No bounded stand-in small enough to finish still exercises the property, so it is not claimed; "
+        "the jobs stay available as ./vcheck C20 --tier thorough. The diamond defect (F14, module_dfs) was seen by reading and by a seed author, not by a check.",
 
 }
 _IAUTH_NOTE = ("callees are replaced by their executable contracts (spec/iauth_model.h: assert precondition, perform the specified effect on the request and the "
@@ -51,12 +55,6 @@ CLAIMS = {
        "is proved to call each destination of the facility and of '*' exactly once with the right attribution and to write to stdout only in debug mode.",
   design_ref="§5 C18", note=_CFG_NOTE + " log_rescan_conf (routing after a reload) is not under contract; line completeness rests on log_file_log's single fprintf (stdio trusted).",
   technique="CBMC: exhaustive concrete enumeration of the expression grammar + per-function proof of the fan-out"),
- "C20": dict(
-  text="The real module.c is run from module_load_list to module_close_all over EVERY dependency matrix of M stub modules (M=3 quick: 512 graphs incl. self loops and "
-       "cycles; M=4 thorough) and every listing of one or two modules: each needed module constructed once, dependencies fully constructed first, post-init once and "
-       "after its dependencies (also along two paths), destructors dependents-first; cyclic or unloadable graphs make start-up fail before any cycle member is post-initialised.",
-  design_ref="§5 C20", note=_CFG_NOTE + " The loader is a model (S4): constructors call the real module_depends. Module table = the set contract instantiated for the key universe m0..m3.",
-  technique="CBMC bounded harness over a symbolic dependency matrix on the real module.c"),
  "C04": dict(
   text="iauth_routing o iauth_validate_request is proved to find exactly the instance (id, serial) the tag was issued for and nobody for a stale serial or unknown id "
        "(all ids/serials symbolic); every tag text up to 19 bytes yields the live request or NULL without memory errors; the reply handler is proved to have an "
